@@ -211,6 +211,18 @@ func c02Proj(c *fw.Case) {
 			}
 		}
 	}
+	// the same query once more on the very same document object: a first run
+	// must not have rearranged the caller's table
+	if c.Chance(0.3) {
+		o2 := Run(doc, sql)
+		if !o2.OK() || !(len(o2.Rows) == 0 && len(want) == 0) && !val.SameSeq(o2.Rows, want) {
+			d := detail()
+			d["second_run"] = o2.Describe()
+			c.Violate("second-run", fmt.Sprintf("a second run of the query on the same document object returned %s", short(fmt.Sprint(o2.Describe()), 300)), d)
+			return
+		}
+		c.Evals(1)
+	}
 	if len(want) > 0 && computed {
 		c.Nontrivial(sql + "|" + val.Canon(t.Array()))
 	}
